@@ -20,8 +20,8 @@ RULE = ("lattice: every 2-D grid {1..4}^2 and 3-D grid {1..3}^3 (one-layer domai
         "all 0/1 fields with at most m solid or at most m void elements, plus the grey tables (generic irrational "
         "fractions, mixed 0/1/grey, ramps, near-solid, near-void). Each point is run with the direction given as unit "
         "3-vector and compared with the reference; on the mirrored / axis-swapped grid in the mapped direction for "
-        "every mirror and swap (covariance); and -- for every field at the first (nsampling, parameter) point and for "
-        "the grey tables everywhere -- with every other way of writing the direction (int list, un-normalised array, "
+        "every mirror and swap (covariance); and -- for every field at the first (nsampling, parameter) point -- with "
+        "every other way of writing the direction (int list, un-normalised array, "
         "short float tuple, 2-long forms in 2-D; strings sign-before, sign-after, no sign, upper case) against the "
         "unit-vector form. A point is non-trivial if the domain has at least two layers in print direction (otherwise "
         "the filter is the identity); distinct by (grid, nsampling, parameters, direction, family, chunk)")
@@ -219,11 +219,11 @@ def generate(tier, seed):
             for ipar, par in enumerate(pars_grey):
                 for d in dir_list(dim):
                     base = {'grid': list(g), 'ns': ns, 'par': par, 'dir': d}
+                    forms = 'all' if (ins == 0 and par == pars_bin[0]) else 'none'
                     for tab in tabs:
-                        yield dict(base, fam='grey', tab=tab, forms='all', maps='all')
+                        yield dict(base, fam='grey', tab=tab, forms=forms, maps='all')
                     if par not in pars_bin:
                         continue
-                    forms = 'all' if (ins == 0 and par == pars_bin[0]) else 'none'
                     maps = 'all' if (not quick or par == pars_bin[0]) else 'none'
                     if nel <= (nbin2 if dim == 2 else nbin3):
                         fam, extra, n = 'bin', {}, 2 ** nel
